@@ -113,6 +113,16 @@ def rule_oblig(ctx, prop: str) -> RuleResult:
         chk = pat.find("self.check_non_negative(lift_expr(_M_it))", body, m[1])
     assume = [n for n in ast.walk(body) if isinstance(n, ast.Call) and last_name(n) == "add_assertion"]
     rec = [n for n in ast.walk(body) if isinstance(n, ast.Call) and last_name(n) == "map_stmts"]
+    # a configuration field written in the body reaches the NEXT iteration's reads: the loop case must
+    # account for the body's own configuration writes when it analyses the body (invalidate them, or
+    # iterate); analysing the body once under the values that hold before the loop is not enough
+    carried = any(
+        (isinstance(n, ast.Attribute) and n.attr in ("config_writes",)) or (isinstance(n, ast.Call) and last_name(n) in ("get_writeconfigs", "havoc_configs"))
+        for n in ast.walk(body)
+    )
+    need(carried, line, "For:loop-carried-config",
+         "the loop body is analysed once under the configuration values that hold before the loop; a field written in the body is not invalidated for the next iteration: "
+         "`Cfg.i = 0; for k in seq(0, n): x[Cfg.i] = 0.0; Cfg.i = 100` is accepted although the second iteration writes x[100]")
     need(m is not None and chk is not None, line, "For:hi-lo>=0", "loops are no longer checked for a non-negative trip count `hi - lo` (a loop whose upper bound is below its lower bound is accepted)",
          "For: check_non_negative(hi - lo)")
     need(chk is not None and assume and chk[0].lineno < min(a.lineno for a in assume), line, "For:check-before-assume",
